@@ -80,6 +80,7 @@ def generate(ctx):
            ("3", "1", 5 if quick else 6, "life"),         # life cycle of an account that does not exist initially
            ("1", "1", 5 if quick else 6, "life"),         # life cycle of a funded account
            ("1", "1", 6 if quick else 8, "store"),        # one storage slot across transaction boundaries
+           ("1", "1", 6 if quick else 7, "side"),         # logs, refund counter, preimages
            ("1", "1, 2, 3", 7 + (4 if quick else 5), "deleg3")]  # one delegator, three validators, populated prelude (7 ops)
     for accts, vals, d, alpha in g1s:
         g = ctx.tlc_must("Journal", G_CFG % (accts, vals, d, '"%s"' % alpha, "revert"), name="G1_%s_%s" % (alpha, accts.replace(", ", "")),
